@@ -208,6 +208,19 @@ func cooldownProtocol(c *Ctx) {
 					}
 				}
 			}
+			{
+				// every wake-up is acted on: no way through the predicate avoids the cleanup closure (a "nothing changed
+				// since the last look" shortcut also swallows the timer's re-broadcast of a change seen during a cooldown)
+				var cl []ssa.Instruction
+				for _, in := range an.AllInstrs(pf, func(in ssa.Instruction) bool { _, ok := in.(*ssa.Call); return ok }) {
+					call := in.(*ssa.Call)
+					if call.Call.StaticCallee() == nil && !call.Call.IsInvoke() && len(call.Call.Args) == 1 {
+						cl = append(cl, in)
+					}
+				}
+				every := len(cl) > 0 && !P.PathExists(pf, nil, an.IsReturn, an.In(cl), nil)
+				pq.add("PATH", "every wake-up of the cleaner runs the cleanup closure", every, pickS(every, "every path through the predicate calls cleanup(cooldown)", "the cleaner's predicate can return without calling the cleanup closure: a broadcast (in particular the one that ends a cooldown) is dropped, and what it announced is reclaimed only when something else happens"))
+			}
 			pq.add("PROV", "the cooldown is the configured one", okc, pickS(okc, "cleanup(b.cleaner.Cooldown), Buffer.cleaner re-read on every pass", "the cooldown handed to cleanup() is not read from the current Buffer.cleaner on every pass: a later SetCleanerConfig would never take effect for the cleaner goroutine"))
 		}
 	}
